@@ -610,6 +610,7 @@ int main(int argc, char** argv)
     m.job("expected<int,int>/k3", both, [](mc::Reporter& r) { explore<ExpectedSys<int, int, 3>>(r); });
     m.job("expected<Tracked,Err>/k3", both, [](mc::Reporter& r) { explore<ExpectedSys<TA, Err, 3>>(r); });
     m.job("expected<Tracked,TrackedB>/k3", both, [](mc::Reporter& r) { explore<ExpectedSys<TA, TB, 3>>(r); });
+    m.job("expected<TrackedRule3,TrackedRule3B>/k3", both, [](mc::Reporter& r) { explore<ExpectedSys<mc::Tracked<mc::rule3, 0>, mc::Tracked<mc::rule3, 1>, 3>>(r); });
     m.job("expected<TrackedMoveOnly,int>/k3", both, [](mc::Reporter& r) { explore<ExpectedSys<TMO, int, 3>>(r); });
     // round 2: trivially copyable value with a non-trivial error (the fourth trivial/non-trivial combination),
     // value and error types that convert into each other
